@@ -107,7 +107,7 @@ func (sw sweep) at(i int, idx []int) (Case, bool) {
 func buildSweeps(thorough bool, r *report.R) []sweep {
 	auths := []authMode{{"none", 0}, {"op", 0}, {"op", 1}, {"op", 2}, {"default", 3}}
 	obs := []obsMode{{"POST", "direct"}, {"POST", "wire"}}
-	obsA := obs
+	obsA := []obsMode{{"POST", "direct"}, {"POST", "wire"}, {"GET", "direct"}}
 	if thorough {
 		auths = []authMode{{"none", 0}, {"op", 0}, {"op", 1}, {"op", 2}, {"op", 3}, {"default", 0}, {"default", 1}, {"default", 2}, {"default", 3}}
 		obsA = []obsMode{{"POST", "direct"}, {"POST", "wire"}, {"PUT", "wire"}, {"PATCH", "direct"}, {"GET", "direct"}, {"DELETE", "direct"}}
@@ -131,7 +131,7 @@ func buildSweeps(thorough bool, r *report.R) []sweep {
 			payloads = append(payloads, Case{Payload: "value", Media: m, Value: id})
 		}
 	}
-	rlens := []int{0, 1, 512, 4096}
+	rlens := []int{0, 1, 512, 4096, 32769, 70000}
 	rkinds := []string{"ascii", "bin"}
 	if thorough {
 		rlens = []int{0, 1, 2, 5, 511, 512, 513, 4096, 32768, 32769, 70000}
@@ -191,11 +191,12 @@ func buildSweeps(thorough bool, r *report.R) []sweep {
 	}})
 
 	// ---- C1: one file, every content length x kind x declared x read behaviour ----
-	lens := []int{0, 1, 2, 3, 4, 5, 8, 9, 511, 512, 513, 1024}
+	lens := []int{0, 1, 2, 3, 4, 5, 8, 9, 511, 512, 513, 1024, 33281}
 	ckinds := kinds
 	srcs := []string{"named-full", "named-one", "named-dataeof", "osfile"}
 	if thorough {
-		lens = []int{0, 1, 2, 3, 4, 5, 6, 7, 8, 9, 10, 16, 100, 255, 256, 510, 511, 512, 513, 514, 1023, 1024, 1025, 4096, 32767, 32768, 32769, 33281, 70000}
+		lens = []int{0, 1, 2, 3, 4, 5, 6, 7, 8, 9, 10, 11, 12, 13, 14, 15, 16, 17, 100, 255, 256, 257,
+			505, 506, 507, 508, 509, 510, 511, 512, 513, 514, 515, 516, 517, 518, 519, 520, 1023, 1024, 1025, 4096, 32767, 32768, 32769, 33279, 33280, 33281, 70000}
 		srcs = []string{"named-full", "named-one", "named-k7", "named-dataeof", "named-zerofirst", "osfile"}
 	}
 	declared := []string{"", "text/csv", "application/x-custom; charset=utf-8"}
@@ -213,13 +214,15 @@ func buildSweeps(thorough bool, r *report.R) []sweep {
 		{Dir: "", Base: "a.txt", Kind: "ascii", Len: 600, Src: "named-full"},
 		{Dir: "", Base: "c.csv", Kind: "ascii", Len: 3, Declared: "text/csv", Src: "named-dataeof"},
 		{Dir: "", Base: "s.txt", Kind: "ascii", Len: 2, Src: "named-full"}, // shorter than the sniffing window, undeclared
+		{Dir: "d/", Base: "b.png", Kind: "png", Len: 1024, Src: "named-full"},
+		{Dir: "", Base: "empty", Kind: "ascii", Len: 0, Src: "named-full"},
 	}
 	mvals := s("v", "", "line1\r\n--x\r\nline2")
+	thirdFiles := fileSet[:1] // the file of the second field in the three-file shapes
 	if thorough {
-		fileSet = append(fileSet,
-			FileSpec{Dir: "d/", Base: "b.png", Kind: "png", Len: 1024, Src: "named-full"},
-			FileSpec{Base: "e.pdf", Kind: "pdf", Len: 513, Src: "osfile"})
+		fileSet = append(fileSet, FileSpec{Base: "e.pdf", Kind: "pdf", Len: 513, Src: "osfile"})
 		mvals = append(mvals, S("é\x80"))
+		thirdFiles = fileSet
 	}
 	shapesF := [][]FormField{nil, {{"a", nil}}}
 	for _, v := range mvals {
@@ -233,7 +236,7 @@ func buildSweeps(thorough bool, r *report.R) []sweep {
 		shapesL = append(shapesL, []FileField{{"f", []FileSpec{f1}}})
 		for _, f2 := range fileSet {
 			shapesL = append(shapesL, []FileField{{"f", []FileSpec{f1, f2}}}, []FileField{{"f", []FileSpec{f1}}, {"a", []FileSpec{f2}}})
-			for _, f3 := range fileSet {
+			for _, f3 := range thirdFiles {
 				shapesL = append(shapesL, []FileField{{"f", []FileSpec{f1, f2}}, {"a", []FileSpec{f3}}})
 			}
 		}
@@ -282,7 +285,7 @@ func main() {
 	r := report.Start("C11", "exploration")
 	log.SetOutput(io.Discard) // the client logs stream errors through the global logger
 	// the machine is shared: keep the heap small (report.Start raises the GC target to 2000%)
-	debug.SetGCPercent(100)
+	debug.SetGCPercent(200)
 	debug.SetMemoryLimit(1 << 30)
 	if err := os.MkdirAll("/verif/.work", 0o755); err != nil {
 		fmt.Fprintln(os.Stderr, err)
